@@ -16,7 +16,7 @@
                       levels_ok (names g) levels /\ modularity non-decreasing along levels. *)
 From Coq Require Import List Bool ZArith QArith.
 From GV Require Import Base.Outcome Model.GState Model.Louvain Spec.PartitionDef
-     Proofs.PartitionOk Proofs.LouvainOk.
+     Proofs.PartitionOk Proofs.LouvainOk Proofs.MoveGainOk Proofs.AggregationOk.
 Import ListNotations.
 
 Section C13.
@@ -32,7 +32,58 @@ Section C13.
              forall c, In c next -> exists ds, incl ds prev /\ (forall x, In x c <-> In x (concat ds)))
           levels.
   Proof. exact (check_levels_sound teqb teqb_spec). Qed.
+
+  (* Move gain on the edge multiset, undirected: u leaves u::D for C.  gain_u is the number the
+     code compares: 2 * (weight between u and X) - gamma * K_X * k_u / m. *)
+  Theorem C13_move_gain_newman : forall (es : list (T * T * Q)) gamma u C D rest,
+    ~ In u C -> ~ In u D -> ~ total_w es == 0 ->
+    newman teqb false es gamma (D :: (u :: C) :: rest) - newman teqb false es gamma ((u :: D) :: C :: rest)
+    == (gain_u teqb es gamma u C - gain_u teqb es gamma u D) / (2 * total_w es).
+  Proof. exact (move_gain_newman teqb teqb_spec). Qed.
+
+  Theorem C13_accepted_move_increases_Q : forall (es : list (T * T * Q)) gamma u C D rest,
+    ~ In u C -> ~ In u D -> 0 < total_w es ->
+    gain_u teqb es gamma u D < gain_u teqb es gamma u C ->
+    newman teqb false es gamma ((u :: D) :: C :: rest) < newman teqb false es gamma (D :: (u :: C) :: rest).
+  Proof. exact (accepted_move_increases_Q teqb teqb_spec). Qed.
+
+  (* directed, with the repaired gain (edges between u and X in both directions) *)
+  Theorem C13_move_gain_newman_directed : forall (es : list (T * T * Q)) gamma u C D rest,
+    ~ In u C -> ~ In u D -> ~ total_w es == 0 ->
+    newman teqb true es gamma (D :: (u :: C) :: rest) - newman teqb true es gamma ((u :: D) :: C :: rest)
+    == (gain_d teqb es gamma u C - gain_d teqb es gamma u D) / total_w es.
+  Proof. exact (move_gain_newman_directed teqb teqb_spec). Qed.
+
+  Theorem C13_accepted_move_increases_Q_directed : forall (es : list (T * T * Q)) gamma u C D rest,
+    ~ In u C -> ~ In u D -> 0 < total_w es ->
+    gain_d teqb es gamma u D < gain_d teqb es gamma u C ->
+    newman teqb true es gamma ((u :: D) :: C :: rest) < newman teqb true es gamma (D :: (u :: C) :: rest).
+  Proof. exact (accepted_move_increases_Q_directed teqb teqb_spec). Qed.
+
+  (* aggregation: relabel every edge by the communities of its ends, merge parallel edges by summing
+     (self-loops included), smaller name first when undirected *)
+  Theorem C13_aggregation_preserves_Q :
+    forall (com : T -> nat) (nodes : list T) (es : list (T * T * Q)) (dir : bool) (gamma : Q)
+           (P' : list (list nat)),
+      (forall e, In e es -> In (wu e) nodes /\ In (wv e) nodes) ->
+      newman Nat.eqb dir (aggregate dir (map (relabel com) es)) gamma P'
+      == newman teqb dir es gamma (map (induced com nodes) P').
+  Proof. exact (aggregation_preserves_Q T teqb teqb_spec). Qed.
 End C13.
+
+(* the repaired scan rule of update_best_com in the state-level model *)
+Theorem C13_move_only_if_strictly_better : forall di m res dir own w2c bc tie,
+  NoDup (map fst w2c) ->
+  update_best_com own w2c di m res dir = Ok (bc, tie) -> bc <> own ->
+  exists wt g, In (bc, wt) w2c /\ gain_of di m res dir bc wt = Ok (Some g) /\ 0 < g /\
+    (forall c w gc, In (c, w) w2c -> gain_of di m res dir c w = Ok (Some gc) -> gc <= g) /\
+    (forall wo go, In (own, wo) w2c -> gain_of di m res dir own wo = Ok (Some go) -> go < g).
+Proof. exact move_only_if_strictly_better. Qed.
+
+(* termination argument: a strictly increasing chain of values over a finite universe *)
+Theorem C13_strict_chain_bounded : forall (X : Type) (f : X -> Q) (universe chain : list X),
+  incl chain universe -> strictly_increasing (map f chain) -> (length chain <= length universe)%nat.
+Proof. exact (@strict_chain_bounded). Qed.
 
 (* louvain_communities returns the last level of louvain_partitions *)
 Theorem C13_communities_is_last :
